@@ -57,7 +57,7 @@ fn observe_pf(w: &World, probes: &[u64]) -> MObs {
     MObs {
         num: c["num_members"].as_u64().unwrap_or(u64::MAX),
         limit: c["member_limit"].as_u64().unwrap_or(u64::MAX),
-        members: w.members_all(None).expect("members"),
+        members: w.members_all(None).unwrap_or_default(),
         has: probes.iter().map(|a| (*a, has_member(w, *a))).collect(),
         ledger: w.ledger(),
     }
@@ -102,9 +102,9 @@ fn observe_t(w: &World, probes: &[u64]) -> TObs {
             .ok()
             .and_then(|v| v["member_count"].as_u64())
             .unwrap_or(u64::MAX);
-        stages.push((cnt, w.members_all(Some(k as u32)).expect("members")));
+        stages.push((cnt, w.members_all(Some(k as u32)).unwrap_or_default()));
     }
-    let beyond = w.members_all(Some(nstages as u32)).expect("members beyond");
+    let beyond = w.members_all(Some(nstages as u32)).unwrap_or_default();
     let mut probe = vec![];
     for k in 0..=nstages {
         for a in probes {
@@ -253,7 +253,61 @@ fn probe_ids(h: &History) -> Vec<u64> {
             _ => {}
         }
     }
-    s.into_iter().take(9).collect()
+    if s.len() <= 9 {
+        return s.into_iter().collect();
+    }
+    // big population: a malformed address, the first, second, middle and last member, one never used
+    let m: Vec<u64> = s.iter().cloned().filter(|a| *a >= 100 && *a != 199).collect();
+    let mut v = vec![50, m[0], m[m.len() / 2], m[m.len() - 1], m[m.len() - 1] + 1, m[1], 61];
+    v.dedup();
+    v
+}
+
+/// Enumeration clause of the property on the real contract: what the paginated Members
+/// query yields, walked to its end with the default page, 7, 100 and 101 per page, is
+/// exactly what is stored (raw storage read through the crate's own map), and the
+/// reported counts are the size of that set.  Documented page sizes: default 25, at most 100.
+fn enumeration_monitor(mon: &mut Mon, w: &World, opl: &str, num: u64, stage_counts: Option<&[u64]>) {
+    let kl = mon.kind.label();
+    let raw = w.raw_members();
+    let stage_ids: Vec<Option<u32>> = if mon.kind.is_tiered() { (0..=3).map(Some).collect() } else { vec![None] };
+    for st in &stage_ids {
+        let want: Vec<(u64, u32)> = raw.iter().filter(|e| st.map_or(true, |k| e.0 == k)).map(|e| (e.1, e.2)).collect();
+        for limit in [None, Some(7u32), Some(100), Some(101)] {
+            let eff = limit.unwrap_or(25).min(100) as usize;
+            match w.members_walk(*st, limit) {
+                Err(e) => mon.flag(format!("C11:{}:{}:members-enumeration-differs", kl, opl), format!("Members(stage {:?}, limit {:?}) failed: {}", st, limit, e)),
+                Ok((got, pages)) => {
+                    if got != want {
+                        mon.flag(
+                            format!("C11:{}:{}:members-enumeration-differs", kl, opl),
+                            format!("Members(stage {:?}) walked with limit {:?} yields {} entries ({} distinct), {} are stored", st, limit, got.len(), distinct(&got), want.len()),
+                        );
+                    }
+                    let n = pages.len();
+                    if pages.iter().enumerate().any(|(i, p)| *p > eff || *p == 0 || (i + 1 < n && *p != eff)) {
+                        mon.flag(format!("C11:{}:{}:members-page-size", kl, opl), format!("Members(stage {:?}, limit {:?}) returned pages of {:?}; a full page is {}", st, limit, pages, eff));
+                    }
+                }
+            }
+        }
+    }
+    if raw.len() as u64 != num {
+        let key = mon.count_key(opl);
+        mon.flag(key, format!("after {}: num_members = {}, entries in storage = {}", opl, num, raw.len()));
+    }
+    if let Some(cs) = stage_counts {
+        for (k, c) in cs.iter().enumerate() {
+            let stored = raw.iter().filter(|e| e.0 as usize == k).count() as u64;
+            if stored != *c {
+                let key = mon.count_key(opl);
+                mon.flag(key, format!("after {}: stage {} member_count = {}, entries in storage = {}", opl, k, c, stored));
+            }
+        }
+        if let Some(e) = raw.iter().find(|e| e.0 as usize >= cs.len()) {
+            mon.flag(format!("C11:{}:{}:orphan-members", kl, opl), format!("{} is stored under stage id {} but there are {} stages", name(e.1), e.0, cs.len()));
+        }
+    }
 }
 
 fn run_pf(h: &History) -> Outcome {
@@ -303,6 +357,7 @@ fn run_pf(h: &History) -> Outcome {
             }
         }
     };
+    enumeration_monitor(&mut mon, &w, "instantiate", o0.num, None);
     check_counts(&mut mon, "instantiate", &o0);
     mon.capacity("instantiate", o0.num, o0.limit, None);
     mon.fees("instantiate", o0.limit, fees_paid, stray, &o0.ledger);
@@ -317,6 +372,7 @@ fn run_pf(h: &History) -> Outcome {
         let r = w.exec(s);
         let ok = r.is_ok();
         let o = observe_pf(&w, &probes);
+        enumeration_monitor(&mut mon, &w, op.kind_label(), o.num, None);
         let opl = op.kind_label();
         hist.push(format!("{}:{}:{}", kind.label(), opl, if ok { "ok" } else { "err" }));
         if ok && matches!(op, Op::Add(_) | Op::Remove(_) | Op::Increase(_)) {
@@ -449,6 +505,7 @@ fn run_tiered(h: &History) -> Outcome {
             }
         }
     };
+    enumeration_monitor(&mut mon, &w, "instantiate", o0.num, Some(&o0.stages.iter().map(|s| s.0).collect::<Vec<_>>()));
     check_counts(&mut mon, "instantiate", &o0);
     mon.capacity("instantiate", o0.num, o0.limit, None);
     mon.fees("instantiate", o0.limit, fees_paid, stray, &o0.ledger);
@@ -463,6 +520,7 @@ fn run_tiered(h: &History) -> Outcome {
         let r = w.exec(s);
         let ok = r.is_ok();
         let o = observe_t(&w, &probes);
+        enumeration_monitor(&mut mon, &w, op.kind_label(), o.num, Some(&o.stages.iter().map(|s| s.0).collect::<Vec<_>>()));
         let opl = op.kind_label();
         hist.push(format!("{}:{}:{}", kind.label(), opl, if ok { "ok" } else { "err" }));
         if ok && matches!(op, Op::TAdd { .. } | Op::TRemove { .. } | Op::Increase(_) | Op::AddStage { .. } | Op::RemoveStage(_)) {
@@ -906,6 +964,134 @@ fn probes() -> Vec<History> {
     v
 }
 
+/// deterministic shuffle of lo..lo+n (so that the contracts' sorting is exercised)
+fn scrambled(lo: u64, n: u64) -> Vec<u64> {
+    let mut v: Vec<u64> = (lo..lo + n).collect();
+    v.reverse();
+    let k = v.len() / 3;
+    v.rotate_left(k);
+    v
+}
+
+/// population-size probes: the contracts page their member queries (default 25, at most
+/// 100 per page); code that collects members through such a helper goes wrong only with
+/// more members than a page holds.  `n` addresses at instantiate (with repeats inside the
+/// list), in one AddMembers / RemoveMembers message, per stage, and in stages that are
+/// removed directly, removed as followers of an earlier stage, and re-added.
+fn population(kind: Kind, n: u64) -> History {
+    let ids = scrambled(100, n);
+    let (first, mid, last) = (100u64, 100 + n / 2, 100 + n - 1);
+    match kind {
+        Kind::Immutable => {
+            let mut ms = ids.clone();
+            ms.extend([first, last, mid]);
+            History { init: imm_init(ms, vec![]), steps: vec![] }
+        }
+        Kind::Plain | Kind::Flex => {
+            let limit = (n + 5) as u32;
+            let mut ms: Vec<(u64, u32)> = ids.iter().map(|a| (*a, (*a % 3 + 1) as u32)).collect();
+            ms.extend([(first, 7), (last, 7), (mid, 7)]);
+            let all = ones(&ids);
+            let mut all_dup = all.clone();
+            if kind == Kind::Plain {
+                all_dup.extend([(mid, 1), (first, 1)]);
+            }
+            let fresh8: Vec<u64> = (100 + n..100 + n + 8).collect();
+            let fresh7: Vec<u64> = (100 + n..100 + n + 7).collect();
+            History {
+                init: pf_init(kind, ms, limit),
+                steps: vec![
+                    call(T0 + 1, 60, Op::Remove(ids.clone())),
+                    call(T0 + 2, 60, Op::Add(all_dup)),
+                    call(T0 + 3, 60, Op::Remove(vec![last, first, mid])),
+                    call(T0 + 4, 60, Op::Add(ones(&[mid]))),
+                    call(T0 + 5, 60, Op::Add(ones(&fresh8))),
+                    call(T0 + 6, 60, Op::Add(ones(&fresh7))),
+                    call(T0 + 7, 60, Op::Remove(scrambled(100 + n / 2 + 1, n / 2 - 2))),
+                ],
+            }
+        }
+        Kind::Tiered | Kind::TieredFlex => {
+            let limit = (2 * n + 20) as u32;
+            let mut big: Vec<(u64, u32)> = ids.iter().map(|a| (*a, (*a % 3 + 1) as u32)).collect();
+            let big_nodup = big.clone();
+            big.extend([(first, 7), (last, 7)]);
+            History {
+                init: t_init(kind, vec![ones(&[100, 101, 102]), big], 2, limit),
+                steps: vec![
+                    call(T0 + 1, 60, Op::AddStage { stage: stage(2), ms: big_nodup.clone() }),
+                    call(T0 + 2, 60, Op::RemoveStage(2)),
+                    call(T0 + 3, 60, Op::AddStage { stage: stage(2), ms: ones(&[first, last, 5000]) }),
+                    call(T0 + 4, 60, Op::RemoveStage(1)),
+                    call(T0 + 5, 60, Op::AddStage { stage: stage(1), ms: big_nodup.clone() }),
+                    call(T0 + 6, 60, Op::AddStage { stage: stage(2), ms: ones(&[6000, 6001, mid]) }),
+                    call(T0 + 7, 60, Op::RemoveStage(0)),
+                    call(T0 + 8, 60, Op::AddStage { stage: stage(0), ms: ones(&[first, 101]) }),
+                    call(T0 + 9, 60, Op::TAdd { stage: 0, ms: big_nodup.clone() }),
+                    call(T0 + 10, 60, Op::TRemove { stage: 0, ms: ids.clone() }),
+                    call(T0 + 11, 60, Op::TAdd { stage: 0, ms: ones(&[last, first]) }),
+                    call(T0 + 12, 60, Op::AddStage { stage: stage(1), ms: big_nodup }),
+                    call(T0 + 13, 60, Op::TRemove { stage: 1, ms: scrambled(100, n - 2) }),
+                ],
+            }
+        }
+        Kind::Merkle => unreachable!(),
+    }
+}
+
+/// sizes around every small literal of the whitelist sources (page sizes 25 / 100, ...),
+/// plus 1.3x and 2.5x the largest of them
+fn population_sizes() -> (Vec<u64>, u64, u64) {
+    let lits: Vec<u64> = harvest_literals(&[
+        "contracts/whitelists/whitelist/src/contract.rs",
+        "contracts/whitelists/whitelist-flex/src/contract.rs",
+        "contracts/whitelists/tiered-whitelist/src/contract.rs",
+        "contracts/whitelists/tiered-whitelist-flex/src/contract.rs",
+        "contracts/whitelists/tiered-whitelist/src/helpers.rs",
+        "contracts/whitelists/tiered-whitelist-flex/src/helpers.rs",
+    ])
+    .into_iter()
+    .filter(|l| (8..=300).contains(l))
+    .map(|l| l as u64)
+    .collect();
+    let max = lits.iter().cloned().max().unwrap_or(100);
+    let min = lits.iter().cloned().min().unwrap_or(25);
+    let mut s: BTreeSet<u64> = BTreeSet::new();
+    for l in &lits {
+        s.extend([l - 1, *l, l + 1]);
+    }
+    s.insert(max * 13 / 10);
+    s.insert(max * 5 / 2);
+    (s.into_iter().collect(), min, max)
+}
+
+fn populations(a: &Args) -> Vec<History> {
+    let (sizes, min, max) = population_sizes();
+    let mut v = vec![];
+    if a.thorough() {
+        for k in [Kind::Plain, Kind::Flex, Kind::Tiered, Kind::TieredFlex, Kind::Immutable] {
+            for n in &sizes {
+                v.push(population(k, *n));
+            }
+        }
+    } else {
+        // a handful: one page + 1 and the largest everywhere, the exact page maximum and
+        // its neighbour on the kinds that collect members in handlers
+        for k in [Kind::Plain, Kind::Flex, Kind::Tiered, Kind::TieredFlex, Kind::Immutable] {
+            v.push(population(k, max + 1));
+            v.push(population(k, min + 1));
+        }
+        for k in [Kind::Tiered, Kind::TieredFlex] {
+            v.push(population(k, max));
+            v.push(population(k, max * 13 / 10));
+        }
+        v.push(population(Kind::Tiered, max * 5 / 2));
+        v.push(population(Kind::Flex, max * 5 / 2));
+        v.push(population(Kind::Immutable, max * 5 / 2));
+    }
+    v
+}
+
 fn random_members(rng: &mut Rng, max: u64) -> Vec<(u64, u32)> {
     let n = rng.below(max + 1);
     (0..n).map(|_| (if rng.chance(1, 40) { 50 + rng.below(3) } else { rng.range(100, 109) }, rng.range(1, 4) as u32)).collect()
@@ -996,6 +1182,7 @@ fn gen_histories(a: &Args) -> Vec<History> {
     }
     let mut v = corpus();
     v.extend(probes());
+    v.extend(populations(a));
     let nrand = if a.thorough() { 600 } else { 40 };
     let mut rnd = vec![];
     for _ in 0..nrand {
